@@ -60,11 +60,11 @@ func runC10(c *eng.Ctx, thorough bool) {
 		if !ok {
 			return false
 		}
-		n := eng.CalleeName(ci.Common())
-		if ci.Common().IsInvoke() && strings.HasPrefix(n, "<physical.") {
+		n := kName(ci)
+		if strings.HasPrefix(n, "<physical.") {
 			return true
 		}
-		if strings.HasPrefix(n, "barrier.(*Keyring).") && len(ci.Common().Args) > 0 && eng.Expr(ci.Common().Args[0]) == "b.keyring" {
+		if strings.HasPrefix(n, "barrier.(*Keyring).") && len(kArgs(ci)) > 0 && eng.Expr(kArgs(ci)[0]) == "b.keyring" {
 			return true
 		}
 		return false
@@ -105,7 +105,7 @@ func runC10(c *eng.Ctx, thorough bool) {
 			pat = `^\^?b\.sealed$`
 		}
 		kr := strings.Replace(strings.TrimSuffix(pat, "$"), "sealed", "keyring", 1) + ` == nil$`
-		if c.Cut(f, "backend / live keyring access", sinks, eng.Or(eng.G(f, pat, false), eng.G(f, kr, false)), nil) {
+		if c.Cut(f, "backend / live keyring access", sinks, c10Unsealed(c, f, pat, kr), nil) {
 			guarded[n] = true
 		}
 	}
@@ -124,7 +124,7 @@ func runC10(c *eng.Ctx, thorough bool) {
 				c.OK(s.Fn, "callers{"+h+"}", s.Call.Pos(), "called from tabled exception "+top)
 			default:
 				// the caller must itself be behind the sealed check at this call
-				g := eng.Or(eng.G(s.Fn, `^\^?b\.sealed$`, false), eng.G(s.Fn, `^\^?b\.keyring == nil$`, false))
+				g := c10Unsealed(c, s.Fn, `^\^?b\.sealed$`, `^\^?b\.keyring == nil$`)
 				if len(g.Edges) == 0 && s.Fn.Parent() == nil && s.Fn.Object() != nil && !s.Fn.Object().Exported() {
 					// an unexported intermediate helper that never tests the flag: the
 					// obligation moves to its callers (one level; extracted helpers)
@@ -145,8 +145,8 @@ func runC10(c *eng.Ctx, thorough bool) {
 		rets := eng.SuccessReturns(f, 0)
 		c.Floor(f, "returns of Seal that report success", len(rets), 1)
 		var zero, nilKR, sealed, cache []ssa.Instruction
-		for _, cl := range eng.Calls(f, `barrier\.\(\*Keyring\)\.Zeroize$`) {
-			if eng.Expr(cl.Common().Args[1]) == "true" {
+		for _, cl := range kCalls(f, `barrier\.\(\*Keyring\)\.Zeroize$`) {
+			if eng.Expr(kArgs(cl)[1]) == "true" {
 				zero = append(zero, cl)
 			}
 		}
@@ -172,10 +172,10 @@ func runC10(c *eng.Ctx, thorough bool) {
 	}
 	if f := c.Fn("barrier.(*Keyring).Zeroize"); f != nil {
 		c.Clause("R5", "C10.2")
-		cl := eng.Calls(f, `^clear$`)
+		cl := kCalls(f, `^clear$`)
 		var what []string
 		for _, x := range cl {
-			what = append(what, eng.ExprDeep(x.Common().Args[0]))
+			what = append(what, eng.ExprDeep(kArgs(x)[0]))
 		}
 		s := strings.Join(what, " ; ")
 		if strings.Contains(s, "rootKey") {
@@ -191,7 +191,7 @@ func runC10(c *eng.Ctx, thorough bool) {
 		c.Clause("R2", "C10.2")
 		var keyClear []ssa.Instruction
 		for _, x := range cl {
-			if strings.Contains(eng.ExprDeep(x.Common().Args[0]), ".Value") {
+			if strings.Contains(eng.ExprDeep(kArgs(x)[0]), ".Value") {
 				keyClear = append(keyClear, x)
 			}
 		}
@@ -230,20 +230,20 @@ func runC10(c *eng.Ctx, thorough bool) {
 			decPat, aeadArg, decided := c10UnsealDecryptor(c, f)
 			if decided {
 				c.Clause("R2", "C10.3")
-				c.Cut(f, "b.sealed = false", unseal, eng.GCallOK(f, decPat+`$`), nil)
+				c.Cut(f, "b.sealed = false", unseal, nfGCallOK(f, decPat+`$`), nil)
 			}
-			c.Cut(f, "b.sealed = false", unseal, eng.GCallOK(f, `barrier\.\(\*AESGCMBarrier\)\.recoverKeyring$`), nil)
-			c.Cut(f, "b.sealed = false", unseal, eng.GCallOK(f, `barrier\.\(\*AESGCMBarrier\)\.aeadFromKey$`), nil)
+			c.Cut(f, "b.sealed = false", unseal, nfGCallOK(f, `barrier\.\(\*AESGCMBarrier\)\.recoverKeyring$`), nil)
+			c.Cut(f, "b.sealed = false", unseal, nfGCallOK(f, `barrier\.\(\*AESGCMBarrier\)\.aeadFromKey$`), nil)
 			c.Clause("R5", "C10.3")
-			for _, a := range eng.Calls(f, `barrier\.\(\*AESGCMBarrier\)\.aeadFromKey$`) {
-				c.Prov(f, "key the AEAD is built from", a, a.Common().Args[1], `^param:key$`)
+			for _, a := range kCalls(f, `barrier\.\(\*AESGCMBarrier\)\.aeadFromKey$`) {
+				c.Prov(f, "key the AEAD is built from", a, kArgs(a)[1], `^param:key$`)
 			}
 			if decided {
-				for _, d := range eng.Calls(f, decPat+`$`) {
-					c.Prov(f, "AEAD used to open the keyring", d, d.Common().Args[aeadArg], `^call:barrier\.\(\*AESGCMBarrier\)\.aeadFromKey#0$`)
+				for _, d := range kCalls(f, decPat+`$`) {
+					c.Prov(f, "AEAD used to open the keyring", d, kArgs(d)[aeadArg], `^call:barrier\.\(\*AESGCMBarrier\)\.aeadFromKey#0$`)
 				}
-				for _, r := range eng.Calls(f, `barrier\.\(\*AESGCMBarrier\)\.recoverKeyring$`) {
-					c.Prov(f, "plaintext keyring recovered", r, r.Common().Args[1], `^call:`+decPat+`#0$`)
+				for _, r := range kCalls(f, `barrier\.\(\*AESGCMBarrier\)\.recoverKeyring$`) {
+					c.Prov(f, "plaintext keyring recovered", r, kArgs(r)[1], `^call:`+decPat+`#0$`)
 				}
 			}
 		}
@@ -294,7 +294,7 @@ func runC10(c *eng.Ctx, thorough bool) {
 			continue
 		}
 		c.Clause("R2", "C10.4")
-		persist := eng.GCallOK(f, `barrier\.\(\*AESGCMBarrier\)\.persistKeyring(BestEffort|Internal)?$`)
+		persist := nfGCallOK(f, `barrier\.\(\*AESGCMBarrier\)\.persistKeyring(BestEffort|Internal)?$`)
 		g := eng.Guard{Desc: persist.Desc, Edges: persist.Edges}
 		extra := []eng.Guard{g}
 		if strings.HasSuffix(fn, "updateRootKeyCommon") {
@@ -305,11 +305,11 @@ func runC10(c *eng.Ctx, thorough bool) {
 		c.Clause("R5", "C10.4")
 		for _, st := range swaps {
 			sv := st.(*ssa.Store).Val
-			for _, p := range eng.Calls(f, `barrier\.\(\*AESGCMBarrier\)\.persistKeyring(BestEffort|Internal)?$`) {
-				if p.Common().Args[2] == sv || eng.ExprDeep(p.Common().Args[2]) == eng.ExprDeep(sv) {
+			for _, p := range kCalls(f, `barrier\.\(\*AESGCMBarrier\)\.persistKeyring(BestEffort|Internal)?$`) {
+				if kArgs(p)[2] == sv || eng.ExprDeep(kArgs(p)[2]) == eng.ExprDeep(sv) {
 					c.OK(f, "swapped keyring == persisted keyring", st.Pos(), eng.Expr(sv))
 				} else {
-					c.Violation(f, "swapped keyring == persisted keyring", st.Pos(), "persisted "+eng.ExprDeep(p.Common().Args[2])+" but made "+eng.ExprDeep(sv)+" live", nil)
+					c.Violation(f, "swapped keyring == persisted keyring", st.Pos(), "persisted "+eng.ExprDeep(kArgs(p)[2])+" but made "+eng.ExprDeep(sv)+" live", nil)
 				}
 			}
 		}
@@ -332,13 +332,13 @@ func runC10(c *eng.Ctx, thorough bool) {
 		if !found {
 			c.Violation(f, "new term = active term + 1", f.Pos(), "Rotate no longer builds the new key with an explicit term", nil)
 		}
-		for _, g := range eng.Calls(f, `barrier\.\(\*AESGCMBarrier\)\.GenerateKey$`) {
+		for _, g := range kCalls(f, `barrier\.\(\*AESGCMBarrier\)\.GenerateKey$`) {
 			_ = g
 		}
 	}
 	if f := c.Fn("barrier.(*AESGCMBarrier).GenerateKey"); f != nil {
 		c.Clause("R5", "C10.4")
-		if len(eng.Calls(f, `^crypto/rand\.Read$|^io\.ReadFull$`)) == 0 {
+		if len(kCalls(f, `^crypto/rand\.Read$|^io\.ReadFull$`)) == 0 {
 			c.Violation(f, "keys from crypto/rand", f.Pos(), "GenerateKey does not read from crypto/rand", nil)
 		} else {
 			c.OK(f, "keys from crypto/rand", f.Pos(), "key bytes read from the system CSPRNG")
@@ -346,19 +346,19 @@ func runC10(c *eng.Ctx, thorough bool) {
 	}
 	if f := c.Fn("barrier.(*AESGCMBarrier).persistKeyringInternal"); f != nil {
 		c.Clause("R5", "C10.4")
-		for _, e := range eng.Calls(f, `barrier\.\(\*AESGCMBarrier\)\.(encrypt|encryptTracked)$`) {
-			a := e.Common().Args
+		for _, e := range kCalls(f, `barrier\.\(\*AESGCMBarrier\)\.(encrypt|encryptTracked)$`) {
+			a := kArgs(e)
 			c.Prov(f, "AEAD used while persisting a keyring", e, a[3], `^call:barrier\.\(\*AESGCMBarrier\)\.aeadFromKey#0$`)
 		}
-		for _, k := range eng.Calls(f, `barrier\.\(\*AESGCMBarrier\)\.aeadFromKey$`) {
-			s := eng.ExprDeep(k.Common().Args[1])
+		for _, k := range kCalls(f, `barrier\.\(\*AESGCMBarrier\)\.aeadFromKey$`) {
+			s := eng.ExprDeep(kArgs(k)[1])
 			if strings.Contains(s, "(keyring)") {
 				c.OK(f, "AEAD key comes from the keyring being persisted", k.Pos(), s)
 			} else {
 				c.Violation(f, "AEAD key comes from the keyring being persisted", k.Pos(), "the AEAD is built from "+s+", not from the keyring argument: a keyring could be persisted under a key it does not contain", nil)
 			}
 		}
-		c.Floor(f, "aeadFromKey calls", len(eng.Calls(f, `barrier\.\(\*AESGCMBarrier\)\.aeadFromKey$`)), 2)
+		c.Floor(f, "aeadFromKey calls", len(kCalls(f, `barrier\.\(\*AESGCMBarrier\)\.aeadFromKey$`)), 2)
 		// frozen write order: keyring, root key, legacy delete
 		c.Clause("R13", "C10.4")
 		var order []string
@@ -366,7 +366,7 @@ func runC10(c *eng.Ctx, thorough bool) {
 		for _, b := range f.Blocks {
 			for _, in := range b.Instrs {
 				ci, ok := in.(ssa.CallInstruction)
-				if !ok || !ci.Common().IsInvoke() || !strings.HasPrefix(eng.CalleeName(ci.Common()), "<physical.Backend>.") {
+				if !ok || !strings.HasPrefix(kName(ci), "<physical.Backend>.") {
 					continue
 				}
 				puts = append(puts, ci)
@@ -374,8 +374,8 @@ func runC10(c *eng.Ctx, thorough bool) {
 		}
 		var kr, rk, del []ssa.Instruction
 		for _, p := range puts {
-			a := p.Common().Args
-			switch p.Common().Method.Name() {
+			a := kArgs(p)
+			switch kMethod(p) {
 			case "Put":
 				k := ""
 				for _, v := range eng.StructLitField(a[len(a)-1], "Key") {
@@ -404,8 +404,8 @@ func runC10(c *eng.Ctx, thorough bool) {
 	}
 	if f := c.Fn("barrier.(*AESGCMBarrier).putWithBackend"); f != nil {
 		c.Clause("R5", "C10.4")
-		for _, pi := range eng.Calls(f, `putInternal$`) {
-			a := pi.Common().Args
+		for _, pi := range kCalls(f, `putInternal$`) {
+			a := kArgs(pi)
 			s := eng.ExprDeep(a[3])
 			if strings.Contains(s, "ActiveTerm(") {
 				c.OK(f, "new writes use the active term", pi.Pos(), s)
@@ -420,8 +420,8 @@ func runC10(c *eng.Ctx, thorough bool) {
 	if cu != nil && ck != nil {
 		c.Clause("R7", "C10.5")
 		var wKey, rKey string
-		for _, e := range eng.Calls(cu, `encryptTracked$`) {
-			a := e.Common().Args
+		for _, e := range kCalls(cu, `encryptTracked$`) {
+			a := kArgs(e)
 			wKey = eng.ExprDeep(a[1])
 			t := eng.ExprDeep(a[2])
 			if strings.Contains(t, "term - 1") {
@@ -430,8 +430,8 @@ func runC10(c *eng.Ctx, thorough bool) {
 				c.Violation(cu, "upgrade key encrypted under the previous term", e.Pos(), "term used: "+t, nil)
 			}
 		}
-		for _, g := range eng.Calls(ck, `lockSwitchedGet$|barrier\.\(\*AESGCMBarrier\)\.Get$`) {
-			a := g.Common().Args
+		for _, g := range kCalls(ck, `lockSwitchedGet$|barrier\.\(\*AESGCMBarrier\)\.Get$`) {
+			a := kArgs(g)
 			for _, x := range a {
 				s := eng.ExprDeep(x)
 				if strings.Contains(s, "Sprintf") || strings.Contains(s, "upgrade") {
@@ -451,9 +451,9 @@ func runC10(c *eng.Ctx, thorough bool) {
 		}
 		c10UpgradePath(c, cu, ck)
 		c.Clause("R2", "C10.5")
-		add := instrsOf(eng.Calls(ck, `barrier\.\(\*Keyring\)\.AddKey$`))
+		add := instrsOf(kCalls(ck, `barrier\.\(\*Keyring\)\.AddKey$`))
 		if c.Floor(ck, "AddKey in CheckUpgrade", len(add), 1) {
-			c.Cut(ck, "AddKey(upgrade key)", add, eng.GCallOK(ck, `barrier\.DeserializeKey$`), nil)
+			c.Cut(ck, "AddKey(upgrade key)", add, nfGCallOK(ck, `barrier\.DeserializeKey$`), nil)
 		}
 	}
 
@@ -471,7 +471,7 @@ func runC10(c *eng.Ctx, thorough bool) {
 // the rule can be evaluated (an undecided obligation is recorded otherwise).
 func c10UnsealDecryptor(c *eng.Ctx, f *ssa.Function) (string, int, bool) {
 	const dec = `barrier\.\(\*AESGCMBarrier\)\.decrypt`
-	if len(eng.Calls(f, dec+`$`)) > 0 {
+	if len(kCalls(f, dec+`$`)) > 0 {
 		return dec, 2, true
 	}
 	site := "sink{b.sealed = false} guard{success edge of " + dec + "$}"
@@ -486,14 +486,14 @@ func c10UnsealDecryptor(c *eng.Ctx, f *ssa.Function) (string, int, bool) {
 			if g == nil || len(g.Blocks) == 0 || !eng.InPkg(g, "barrier") || g.Signature.Results().Len() != 2 {
 				continue
 			}
-			ds := eng.Calls(g, dec+`$`)
+			ds := kCalls(g, dec+`$`)
 			if len(ds) == 0 {
 				continue
 			}
 			// (a) the AEAD is a parameter of g
 			idx := -1
 			for _, d := range ds {
-				p, isP := d.Common().Args[2].(*ssa.Parameter)
+				p, isP := kArgs(d)[2].(*ssa.Parameter)
 				if !isP {
 					idx = -1
 					break
@@ -508,7 +508,7 @@ func c10UnsealDecryptor(c *eng.Ctx, f *ssa.Function) (string, int, bool) {
 				continue
 			}
 			// (b), (c)
-			okG := eng.Reach(eng.Query{Fn: g, Blocked: eng.GCallOK(g, dec+`$`).Edges, Target: eng.IsTarget(eng.SuccessReturns(g, 1))}) == nil
+			okG := eng.Reach(eng.Query{Fn: g, Blocked: nfGCallOK(g, dec+`$`).Edges, Target: eng.IsTarget(eng.SuccessReturns(g, 1))}) == nil
 			for _, r := range eng.SuccessReturns(g, 1) {
 				vals, _, _ := eng.ReturnVals(r.(*ssa.Return), 0)
 				for _, v := range vals {
@@ -548,7 +548,18 @@ func c10CallersGuarded(c *eng.Ctx, mid *ssa.Function, helper string, guarded map
 		case exceptions[top] != "":
 			c.OK(s.Fn, "callers{"+helper+" via "+name+"}", s.Call.Pos(), "called from tabled exception "+top)
 		default:
-			c.Cut(s.Fn, "call of "+name+" (reaches helper "+helper+")", []ssa.Instruction{s.Call}, eng.Or(eng.G(s.Fn, `^\^?b\.sealed$`, false), eng.G(s.Fn, `^\^?b\.keyring == nil$`, false)), nil)
+			c.Cut(s.Fn, "call of "+name+" (reaches helper "+helper+")", []ssa.Instruction{s.Call}, c10Unsealed(c, s.Fn, `^\^?b\.sealed$`, `^\^?b\.keyring == nil$`), nil)
 		}
 	}
+}
+
+// c10Unsealed: the edges of f on which the barrier was found unsealed: the
+// sealed flag tested false (directly, through a local copy, or through a
+// closure / same-package function that returns the flag) or the live keyring
+// tested non-nil. Description (and obligation key) are those of the two
+// rendered tests.
+func c10Unsealed(c *eng.Ctx, f *ssa.Function, sealedPat, keyringPat string) eng.Guard {
+	g := eng.Or(eng.G(f, sealedPat, false), eng.G(f, keyringPat, false))
+	g.Edges = append(g.Edges, kFieldFalseEdges(f, c.P.Field("barrier.AESGCMBarrier.sealed"))...)
+	return g
 }
